@@ -13,7 +13,10 @@ CHECKS['C05'] = {
     'rule': 'rapid unit: layouts of 1-16 keepstore services (random UUIDs and block hashes, so rendezvous rank varies) with 0-3 mounts each, '
             'read-only flags on mounts and services (incl. all-read-only plans), per-mount replication 1-3, DeviceID blank / own / shared '
             'between mounts on different servers (generator switch: label mode:noshared, ~40% of cases, never shares a device), storage '
-            'classes subsets of {default,a,b} (~40% of cases default-only); block = per PHYSICAL device copy / no copy with mtime old, '
+            'classes subsets of {default,a,b} (~40% of cases default-only); block id (round 2) = random hash in half of the cases, else the '
+            'well-known empty block d41d8cd98f00b204e9800998ecf8427e+0 (~12% of cases, label blkid:empty-block-d41d8cd9+0), hashes that '
+            'start/end with runs of 0 or f or consist of one digit, sizes 0, 1, 2^26-1, 2^26, 2^26+k, 2^31, >2^32; '
+            'block = per PHYSICAL device copy / no copy with mtime old, '
             'old-colliding, new or exactly at the MinMtime boundary, 0-3 referencing collections with desired replication 0-4 over class '
             'subsets. The state is fed as GetCurrentState does (real cleanupMounts first; every surviving mount of a device reports the '
             'copy with the same mtime; AddReplicas/IncreaseDesired in drawn order) into the real balanceBlock (twice, KeepServices is a map) '
@@ -23,6 +26,7 @@ CHECKS['C05'] = {
             '<=3 mounts in total in the quick tier and <=4 mounts in total in the thorough tier (1.58e8 (layout, block) cases), x every '
             'service and mount read-only flag x every device structure (blank / own / one or two devices shared across servers) x '
             'replication 1-2 per device x per-device copy state {none, old, old-colliding, new} x desired 0-4, default class only. '
+            'enum-empty unit (round 2): the quick-tier enumeration (<=3 mounts) repeated with the empty block d41d8cd9...+0 as block id. '
             'pinned unit: the minimal layouts of the four defects this check found (three repaired in /repo, one listed as known finding). '
             'non-trivial = >=2 physical copies and at least one trash or pull emitted, or a class with desired>0 that is under-replicated '
             'while a copy exists; distinct = fingerprint of the canonical JSON of layout+blocks (rapid) or of (layout index, replication '
